@@ -227,7 +227,24 @@ def c15(tier):
     return rep
 
 
+def c04(tier):
+    from . import props_c04
+    rep = Report('C04', tier,
+                 'The parser is abstracted to a recogniser skeleton (look-ahead tests, match calls, grammar-function calls, error '
+                 'pushes) and run as a generator: it enumerates exactly the token sequences up to N tokens that the real control flow '
+                 'accepts without recording an error. This finite set must equal the reference grammar enumerated to the same bound '
+                 '(quick N=9, thorough N=14); a differing sentence is the witness. Structural rules cover the mismatch error, trailing '
+                 'input, error propagation and the four static rules of the generator. Keyword spellings belong to C14.',
+                 assumptions=['bounded: sentences longer than N tokens are not compared (the grammar has no construct longer than 9 tokens, '
+                              'so every production and every pair of adjacent productions is exercised)',
+                              'sources without user macros, duplicate labels or duplicate parameter names (as the property states)'],
+                 trusted=TRUSTED)
+    props_c04.c04(rep, tier)
+    return rep
+
+
 CHECKS = {
+    'C04': c04,
     'C14': c14, 'C15': c15,
     'C09': c09, 'C10': c10, 'C11': c11, 'C12': c12,
     'C02': c02,
